@@ -930,6 +930,10 @@ class Rechunk(ArrayExpr):
 
         expand = self.array
         axes = set(expand.axes)
+        if any(self.chunks[ax] != (1,) for ax in axes):
+            # e.g. a zero-width block on the new axis: ExpandDims can only
+            # produce (1,) there, so the rechunk has to stay above it.
+            return None
         # self.chunks is the settled target (balance already applied), so the
         # inner rechunk takes it verbatim with balance off.
         inner_chunks = tuple(c for ax, c in enumerate(self.chunks) if ax not in axes)
@@ -1030,7 +1034,7 @@ class Rechunk(ArrayExpr):
         if isinstance(new_out, ArrayExpr):
             new_out = rechunk_array_arg(new_out)
 
-        return Elemwise(
+        result = Elemwise(
             elemwise.op,
             elemwise.operand("dtype"),
             elemwise.operand("name"),
@@ -1039,6 +1043,11 @@ class Rechunk(ArrayExpr):
             elemwise.operand("_user_kwargs"),
             *new_args,
         )
+        if len(result.chunks) != len(chunks) or any(len(rc) != len(c) for rc, c in zip(result.chunks, chunks)):
+            # size-1 axes keep their (1,) chunk above, so a target with extra
+            # (zero-width) blocks there cannot be produced by the inputs
+            return None
+        return result
 
     def _pushdown_through_concatenate(self):
         """Push rechunk through concatenate; None when it doesn't apply.
